@@ -300,6 +300,14 @@ def run(shard, ctx):
                             v = caller_buffer(rng, harness.pattern_bytes(512, 9))
                             ctx.add("caller_buffer_types", type(v).__name__)
                         a[name] = v
+                    wname = next((k for k, spec in c.args.items() if spec[0] == "wdata"), None)
+                    if wname and a.get("tl") and rng.random() < 0.35:
+                        # the caller's I/O buffer is larger than the blocks asked for (a reused 64 KiB buffer, one byte or one block
+                        # more): TRANSFER LENGTH is still the caller's, the buffer is still the caller's
+                        bs_ = 512
+                        extra = rng.choice([1, bs_ - 1, bs_, 3 * bs_ + 7, len(a[wname]), 65536])
+                        a[wname] = harness.pattern_bytes(len(a[wname]) + extra, rng.getrandbits(8))
+                        ctx.count("write_buffers_larger_than_the_transfer")
                     if c.name == "ReadCd" and ("mcsb" in sub or "est" in sub):
                         # keep the selection legal so decoding is defined: mode 1 with user data
                         if "est" in a:
@@ -388,6 +396,8 @@ def run(shard, ctx):
                         else:
                             ctx.fail("C13:%s.raises_after_send.%s.%s" % (c.facade, subkey, type(err).__name__), "%s raised after sending: %s" % (c.facade, err), wit, exc=err)
                         continue
+                    if wname and bytes(sent.dataout) != bytes(a[wname]):
+                        ctx.fail("C13:%s.dataout_not_the_callers_data" % c.facade, "the data-out buffer sent (%d bytes) is not the data the caller passed (%d bytes)" % (len(sent.dataout), len(a[wname])), wit)
                     # identity
                     if cmd is not sent:
                         ctx.fail("C13:%s.returned_other_object" % c.facade, "facade returned another object than it sent", wit)
